@@ -1,5 +1,6 @@
 import DL.Lemmas.Pipe
 import DL.Lemmas.DirSpec
+import DL.Gen.RuleStructs
 
 /-!
 # C06 — ignore directives suppress exactly the diagnostics they name
@@ -142,5 +143,17 @@ example : DL.Dir.parseIgnore (chars! "deno-lint-ignore") .line (chars! " deno-li
     some [chars! "no-var", chars! "no-eval"] := by decide
 example : DL.Dir.parseIgnore (chars! "deno-lint-ignore") .line (chars! " deno-lint-ignore no-var ,\t no-eval  -- because, reasons") =
     some [chars! "no-var", chars! "no-eval"] := by decide
+
+/-! ## the two regular expressions of `parse_ignore_comment`, read off the source on every run
+
+M-DIR re-implements `IGNORE_COMMENT_REASON_RE` and `IGNORE_COMMENT_CODE_RE` by hand (`Model/Dir.lean`; closed form in
+`directive_codes_are_tokens`).  `Gen/RuleStructs.lean` lists every `Regex::new(<literal>)` of `src/`; the theorem is
+re-decided on every run: the literals are the ones the model implements — "cut at the leftmost `\s*--`" and "separators
+are `,\s*` or one white-space character". -/
+theorem directive_regexes_as_modelled :
+    DL.Gen.regexLiterals.filter (fun r => r.1 == "src/ignore_directives.rs") =
+      [("src/ignore_directives.rs", "IGNORE_COMMENT_REASON_RE", "\\s*--.*"),
+       ("src/ignore_directives.rs", "IGNORE_COMMENT_CODE_RE", ",\\s*|\\s")] := by
+  decide
 
 end DL.Props.C06
